@@ -3,6 +3,8 @@ package graph
 import (
 	"context"
 
+	"github.com/99designs/gqlgen/graphql"
+
 	"example.com/probe/ref"
 	"github.com/99designs/gqlgen/zzsym"
 )
@@ -58,4 +60,47 @@ func Harness_C05_deferOnce() {
 	cancel()
 	zzsym.Assert(zzsym.Quiesce() == 0, "no goroutine of the operation outlives the cancelled request when only one payload is taken")
 	zzsym.Reach("c05.defer")
+}
+
+func Setup_C05_deferCancel() { Setup_C13_defer() }
+
+// Harness_C05_deferCancel: an operation with deferred fragments consumed by a
+// streaming transport (drain until nil) while the request context is
+// cancelled at an arbitrary point (inside the k-th resolver call, or after
+// the k-th payload): the response function always returns and nothing is left
+// running.
+func Harness_C05_deferCancel() {
+	fi := zzsym.Choice("family", len(c13Families))
+	fam := c13Families[fi]
+	vars := map[string]any{}
+	for _, v := range fam.flags {
+		vars[v] = true
+	}
+	w := newWorld(0, false)
+	doc := c13Docs[fi]
+	ctx, cancel := context.WithCancel(context.Background())
+	at := zzsym.Choice("cancelAt", 7) // 0 never; 1..3 inside the k-th resolver call; 4..6 after the (k-3)-th payload
+	w.onCall = func(n int) {
+		if at >= 1 && at <= 3 && n == at {
+			cancel()
+		}
+	}
+	es := newES(w)
+	ex := newExecutorFor(es, w)
+	rh, ctx2 := ex.DispatchOperation(graphql.StartOperationTrace(ctx), opCtxFor(w, doc, vars))
+	n := 0
+	for {
+		resp := rh(ctx2)
+		if resp == nil {
+			break
+		}
+		n++
+		if at >= 4 && n == at-3 {
+			cancel()
+		}
+		zzsym.Assert(n <= 16, "the payload sequence ends")
+	}
+	cancel()
+	zzsym.Assert(zzsym.Quiesce() == 0, "nothing is left running after a cancelled streamed operation")
+	zzsym.Reach("c05.defercancel")
 }
